@@ -6,7 +6,7 @@ observed first; replayed events are observed through a kind-preserving mapping; 
 per-document reset covers every accumulating field; all option components reach the event
 source and every success path passes the finishing call, which invokes both report callbacks
 before returning the delayed breach."""
-from ..mir import norm, fieldpath, MissingAnchor
+from ..mir import norm, fieldpath, MissingAnchor, sym_contains
 from ..rules import render, compares, aggregates, must_pass, writes_in, resets_in, bool_switches, last_seg, STRICT_REJECT_FORMS
 from .. import proto
 
@@ -179,6 +179,64 @@ def rule_limit(ctx, fx, config):
               "the ratio clause `aliases > multiplier x anchors` is missing or altered; found %s" % sorted(cs), config, ctx.where(fin))
     ctx.check("self.budget.enforce_alias_anchor_ratio" in sw, "LIMIT", "C07:LIMIT:finalize:ratio:switch",
               "heuristic is gated by enforce_alias_anchor_ratio", "the ratio heuristic is no longer gated by enforce_alias_anchor_ratio", config, ctx.where(fin))
+
+
+def rule_scalar_bytes_operand(ctx, fx, config, prop="C07"):
+    """What is added to `total_scalar_bytes` is the length of the scalar's text, for parser scalars and replayed ones alike:
+    every increment's operand resolves — through the enforcer's own helpers and their callers, up to three levels — to `len(text)`
+    and never to a constant, a conditional mix, or a separately supplied amount (a replayed scalar is materialised again in the
+    target whether or not its text still borrows from the input)."""
+    n = [0]
+
+    def judge(f, sym, depth, trail):
+        """returns list of (ok, description)"""
+        if sym[0] == "call" and last_seg(sym[1]) == "len" and sym[2]:
+            inner = sym[2][0]
+            bad = sym_contains(inner, lambda x: x[0] == "const")
+            return [(not bad, "%s: len(%s)" % (trail, render(inner)[:50]))]
+        if sym[0] == "arg" and depth < 3:
+            out = []
+            for g, cb in fx.callers.get(f.npath, []):
+                t = g.blocks[cb]["term"]
+                if sym[1] - 1 < len(t["args"]):
+                    with g.deep():
+                        a = g.sym_operand(t["args"][sym[1] - 1])
+                    out += judge(g, a, depth + 1, trail + " <- " + g.name)
+            return out or [(False, "%s: parameter `%s` of an uncalled function" % (trail, sym[2]))]
+        return [(False, "%s: `%s`" % (trail, render(sym)[:80]))]
+    for f in sorted(fx.fns.values(), key=lambda g: g.npath):
+        if not f.npath.startswith("budget::BudgetEnforcer::"):
+            continue
+        for b, i, s_ in f.stmts():
+            if s_["k"] != "assign" or render(f.sym_place(s_["p"])) != "self.report.total_scalar_bytes":
+                continue
+            with f.deep():
+                v = f.sym_rvalue(s_["rv"])
+            add = None
+            if v[0] == "call" and last_seg(v[1]) in ("saturating_add", "checked_add", "wrapping_add") and len(v[2]) == 2:
+                add = v[2][1]
+            elif v[0] == "field" and v[1][0] == "bin" and v[1][1] in ("AddWithOverflow",):
+                add = v[1][3]
+            elif v[0] == "bin" and v[1] == "Add":
+                add = v[3]
+            elif v[0] == "const" and v[1] == 0:
+                continue  # reset
+            if add is None:
+                # written from a call result (`x = x.saturating_add(n)` lowers to a call terminator) — handled below
+                continue
+            for ok, why in judge(f, add, 0, f.name):
+                n[0] += 1
+                ctx.check(ok, "LIMIT", "%s:LIMIT:scalar-bytes-operand:%s" % (prop, f.name), "the amount charged to total_scalar_bytes is the length of the scalar's text (%s)" % why,
+                          "total_scalar_bytes grows by something other than the scalar's own length (%s): scalars delivered to the target are not (all) charged against max_total_scalar_bytes" % why, config, ctx.where(f, b))
+        for b, t in f.calls():
+            if t["dest"]["pr"] and render(f.sym_place(t["dest"])) == "self.report.total_scalar_bytes" and last_seg(fx.callee(t)) in ("saturating_add", "checked_add", "wrapping_add") and len(t["args"]) == 2:
+                with f.deep():
+                    add = f.sym_operand(t["args"][1])
+                for ok, why in judge(f, add, 0, f.name):
+                    n[0] += 1
+                    ctx.check(ok, "LIMIT", "%s:LIMIT:scalar-bytes-operand:%s" % (prop, f.name), "the amount charged to total_scalar_bytes is the length of the scalar's text (%s)" % why,
+                              "total_scalar_bytes grows by something other than the scalar's own length (%s): scalars delivered to the target are not (all) charged against max_total_scalar_bytes" % why, config, ctx.where(f, b))
+    ctx.floor("LIMIT.scalar-bytes-increments", n[0], 1, config)
 
 
 def rule_ratio_only_at_end(ctx, fx, config):
@@ -423,6 +481,44 @@ def stop_at_doc_end_always_false(fx):
 EV2EVENT = {"Scalar": "Scalar", "SeqStart": "SequenceStart", "SeqEnd": "SequenceEnd", "MapStart": "MappingStart", "MapEnd": "MappingEnd"}
 
 
+def enforcer_effects(fx, g, seen=None):
+    """fields of the enforcer written and enforcer methods called by `g`, transitively over BudgetEnforcer methods"""
+    seen = seen if seen is not None else set()
+    if g.npath in seen:
+        return set()
+    seen.add(g.npath)
+    eff = set()
+    for b, i, s_ in g.stmts():
+        if s_["k"] == "assign":
+            r = render(g.sym_place(s_["p"]))
+            if r.startswith("self.report.") or r in ("self.depth",):
+                eff.add(r)
+    for b, t in g.calls():
+        c = fx.callee(t)
+        if t["dest"]["pr"]:
+            r = render(g.sym_place(t["dest"]))
+            if r.startswith("self.report.") or r in ("self.depth",):
+                eff.add(r)
+        if c.startswith("budget::BudgetEnforcer::"):
+            eff.add("call:" + last_seg(c))
+            h = fx.local_callee(t)
+            if h is not None:
+                eff |= enforcer_effects(fx, h, seen)
+        if last_seg(c) == "push" and t["args"] and render(g.sym_operand(t["args"][0])).endswith("self.containers"):
+            eff.add("self.containers.push")
+    return eff
+
+
+# what observing a replayed node of each kind must charge, whichever enforcer entry point is used
+REPLAY_EFFECTS = {
+    "Scalar": {"self.report.events", "self.report.nodes", "self.report.total_scalar_bytes", "call:handle_scalar"},
+    "SeqStart": {"self.report.events", "self.report.nodes", "self.depth"},
+    "MapStart": {"self.report.events", "self.report.nodes", "self.depth"},
+    "SeqEnd": {"self.report.events", "self.depth"},
+    "MapEnd": {"self.report.events", "self.depth"},
+}
+
+
 def rule_replay(ctx, fx, config):
     f = fx.fn("live_events::LiveEvents::observe_budget_for_replay")
     ctx.saw(f)
@@ -447,7 +543,17 @@ def rule_replay(ctx, fx, config):
                 key = "C07:REPLAY:map:%s" % vn
                 if vn in EV2EVENT:
                     # the arm's own aggregate: exclude aggregates shared by other arms
-                    ctx.check(EV2EVENT[vn] in built and must_pass(f, [tgt], obs_blocks, to_blocks=f.return_blocks()) or (EV2EVENT[vn] in built and obs_blocks and all(ob in f.reachable([tgt]) for ob in obs_blocks)),
+                    # a dedicated enforcer entry point for replayed nodes is as good as `observe` when it charges the same things
+                    alt = False
+                    others = [x for v2, x in arms.items() if x != tgt]
+                    for cb, ct in f.calls():
+                        c = fx.callee(ct)
+                        if cb in f.reachable([tgt], avoid=others) and c.startswith("budget::BudgetEnforcer::") and c != "budget::BudgetEnforcer::observe":
+                            h = fx.local_callee(ct)
+                            if h is not None and REPLAY_EFFECTS[vn] <= (enforcer_effects(fx, h) | {"call:" + last_seg(c)}) and must_pass(f, [tgt], [cb] + obs_blocks, to_blocks=f.return_blocks()):
+                                alt = True
+                                ctx.saw(h)
+                    ctx.check(alt or EV2EVENT[vn] in built and must_pass(f, [tgt], obs_blocks, to_blocks=f.return_blocks()) or (EV2EVENT[vn] in built and obs_blocks and all(ob in f.reachable([tgt]) for ob in obs_blocks)),
                               "REPLAY", key, "Ev::%s is re-observed as Event::%s" % (vn, EV2EVENT[vn]),
                               "replayed Ev::%s is not re-observed as Event::%s (built: %s): replayed nodes are mis-counted" % (vn, EV2EVENT[vn], sorted(built)), config, ctx.where(f, tgt))
                     # and it must build ONLY its own kind before reaching observe
@@ -463,6 +569,15 @@ def rule_replay(ctx, fx, config):
             with f.deep():
                 tg = render(f.sym_operand(s_["rv"]["ops"][3]))
             oktag = oktag or ("raw_tag" in tg or ".tag" in tg or "tag" in tg.replace("saphyr_parser_bw::Tag", "")) and not tg.endswith("None{}")
+    # … or through a dedicated entry point that is told the taggedness (a bool argument computed from the recorded tag)
+    for cb, ct in f.calls():
+        c = fx.callee(ct)
+        if c.startswith("budget::BudgetEnforcer::") and c != "budget::BudgetEnforcer::observe":
+            for a in ct["args"][1:]:
+                with f.deep():
+                    tg = render(f.sym_operand(a))
+                if ("raw_tag" in tg or "tag" in tg) and ("is_some" in tg or "Ne(" in tg or "ne(" in tg or "phi(" in tg):
+                    oktag = True
     ctx.check(oktag, "REPLAY", "C07:REPLAY:scalar-taggedness", "a replayed scalar is re-observed as tagged iff the recorded scalar was tagged",
               "observe_budget_for_replay hands replayed scalars to the enforcer without a tag: a tagged `<<` key inside a replayed mapping is counted as a merge key", config, ctx.where(f))
     # in next_impl: every Ok(Some(ev)) produced inside the inject loop is dominated by the replay observation
@@ -570,6 +685,7 @@ def run(ctx):
         fx = ctx.facts(config)
         rule_limit(ctx, fx, config)
         rule_ratio_only_at_end(ctx, fx, config)
+        rule_scalar_bytes_operand(ctx, fx, config)
         rule_reset(ctx, fx, config)
         rule_observe(ctx, fx, config)
         rule_replay(ctx, fx, config)
